@@ -351,9 +351,11 @@ Definition grid {A} (f : Z -> Z -> A) (lo : Z) (n : nat) (lo2 : Z) (n2 : nat) : 
 Definition used {A} (tp0 : tape) (r : A * tape) : A * nat := (fst r, (length tp0 - length (snd r))%nat).
 
 (** pseudo-random tape computed identically by the harness (so that long tapes need no literals) *)
+Definition M521 : Z := Eval vm_compute in 2 ^ 521 - 1.
 Definition gen_tape (seed x : Z) (n : nat) : tape :=
   map (fun i => let i := Z.of_nat i in
-                (((seed + x) * (2 * i + 1) * 2654435761 + i) ^ 2 + x * i) mod (2 ^ 521 - 1)) (seq 0 n).
+                let b := (seed + x) * (2 * i + 1) * 2654435761 + i in
+                (b * b + x * i) mod M521) (seq 0 n).
 Definition run_is_prime (seed : Z) (n : nat) (x : Z) :=
   let tp := gen_tape seed x n in used tp (is_prime tp x).
 Definition run_next_prime (fuel : nat) (seed : Z) (n : nat) (x : Z) :=
